@@ -35,7 +35,7 @@ const commonNote = "Trusted base: Go toolchain and math/big (oracle arithmetic),
 
 var props = map[string]*propCfg{
 	"C01": {
-		Rule:        "Cases are a pure function of (VERIF_SEED, case index): operation in {Add,Sub,Mul,Quo,Set,SetPrec,Neg,Abs} x operand shapes (exponent gaps 0/1/18/19/20/p/p+-1/sticky-only, sums and products and exact quotients constructed to land on ties / just beside ties / all-nines carries, massive cancellation, equal and negated operands, both ends of the int32 exponent range, zero operands, near-equal leading words for quotient-digit correction, squares through one variable) x precision (1..40 dense, word boundaries, digit count of the exact result +-3, MaxPrec) x six modes. Every case is executed on a fresh receiver and judged by two independent models (round-once in big.Int; definition of correct rounding by magnitude comparisons). A case is non-trivial when the exact result is not representable at the receiver's precision or leaves the exponent range (rounding or saturation actually happened); distinct = distinct 64-bit hashes of (op, operands, precision, mode) among those.",
+		Rule:        "Cases are a pure function of (VERIF_SEED, case index): operation in {Add,Sub,Mul,Quo,Set,SetPrec,Neg,Abs} x operand shapes (exponent gaps 0/1/18/19/20/p/p+-1/sticky-only, sums and products and exact quotients constructed to land on ties / just beside ties / all-nines carries, massive cancellation, equal and negated operands, both ends of the int32 exponent range, zero operands, near-equal leading words for quotient-digit correction, squares through one variable) x precision (1..40 dense, word boundaries, digit count of the exact result +-3, MaxPrec) x six modes. Every case is executed on a fresh receiver and judged by two independent models (round-once in big.Int; definition of correct rounding by magnitude comparisons). A case is non-trivial when the exact result is not representable at the receiver's precision or leaves the exponent range (rounding or saturation actually happened); distinct = distinct 64-bit hashes of (op, operands, precision, mode) among those. Added in later rounds: operand and receiver precisions from the top of the uint32 range (4 in 100 operands; receivers of Add/Sub/Mul/Set/Neg/Abs), underflow by cancellation at the bottom of the range, divisors 10^k/1/2/4/5/8/25 with dividends at the range ends, 500..1400-digit factors at the range ends, B/k and binary-boundary edge words, and two directed cases per run with operands 2^31+ digits apart (one effective addition, one subtraction; both models judge the surrogate 'large operand plus a non-zero value far below the rounding position').",
 		Assumptions: []string{"operand exponent gaps are capped (2 000 digits quick, 200 000 thorough) because the library materialises the shift", "operands are built with SetBitsExp+Neg and verified by read-back before use", "receiver precision >= 1 (precision 0 belongs to C09)"},
 		Floors:      []floor{{"Add/", 1000}, {"Sub/", 1000}, {"Mul/", 1000}, {"Quo/", 1000}, {"Set/", 200}, {"SetPrec/", 200}, {"Neg/", 200}, {"Abs/", 200}, {"Quo/exact-quotient", 500}, {"Add/sum-aimed", 300}, {"oracle_selftest_cases", 1000}},
 		LevelText:   "Runtime monitoring: every generated call of the real library is compared with an exact big-integer reference by two independent oracles; assurance is 'held on the N executions listed in the evidence', with generators aimed at the rounding structure (ties, carries, word boundaries, range ends) that uniform tests do not reach.",
@@ -43,7 +43,7 @@ var props = map[string]*propCfg{
 		DesignRef:   "DESIGN.md §4 C01",
 	},
 	"C03": {
-		Rule:        "Cases: FMA triples built so that u lies within +-(p+3) digits of the product's leading digit, far below / far above it (sticky only), u = -(x*y rounded to k digits) for random k (cancellation leaving 0..all digits, incl. exactly zero sums), sums constructed to land on ties and all-nines carries, zero products and zero addends of both signs, infinities, products at both ends of the exponent range; x 15 sharing patterns of {z,x,y,u} (45% distinct variables) x precision x six modes. Judged by both oracle models on the exact x*y+u (value and accuracy), plus: receiver attributes unchanged, operands not sharing the receiver unmodified. Non-trivial = single rounding differs from Mul-then-Add by the oracle (value or accuracy); distinct = hashes of (operands, precision, mode, sharing pattern).",
+		Rule:        "Cases: FMA triples built so that u lies within +-(p+3) digits of the product's leading digit, far below / far above it (sticky only), u = -(x*y rounded to k digits) for random k (cancellation leaving 0..all digits, incl. exactly zero sums), sums constructed to land on ties and all-nines carries, zero products and zero addends of both signs, infinities, products at both ends of the exponent range; x 15 sharing patterns of {z,x,y,u} (45% distinct variables) x precision x six modes. Judged by both oracle models on the exact x*y+u (value and accuracy), plus: receiver attributes unchanged, operands not sharing the receiver unmodified. Non-trivial = single rounding differs from Mul-then-Add by the oracle (value or accuracy); distinct = hashes of (operands, precision, mode, sharing pattern). Added in later rounds: underflow by cancellation, tail-cancel addends, operand precisions from the top of the range; the known finding D15 is matched by class and outcome (fmaKnownOutcome).",
 		Assumptions: []string{"gap between the exact product and u capped like C01's addend gap", "operands sharing the receiver are given values that fit the receiver's precision (otherwise they could not be that variable)", "cases whose exact product x*y leaves the exponent range are known finding D15 (predicate fma_product_exponent_out_of_range) and reported as such"},
 		Floors:      []floor{{"FMA/u-near", 5000}, {"FMA/cancel", 5000}, {"FMA/cancel-to-zero", 1000}, {"FMA/zeros", 1000}, {"FMA/infinities", 1000}, {"FMA/sum-aimed", 2000}, {"shape/z=u", 500}, {"shape/z=x=y=u", 500}, {"fma_differs_from_mul_then_add", 2000}},
 		LevelText:   "Runtime monitoring of FMA against the exact x*y+u in big integers under all 15 sharing patterns; evidence counts how many cases the single rounding actually mattered.",
@@ -51,7 +51,7 @@ var props = map[string]*propCfg{
 		DesignRef:   "DESIGN.md §4 C03",
 	},
 	"C05": {
-		Rule:        "Cases: perfect squares s^2 (s of 1..80 digits, some to 1 500) and s^2+-1, at receiver precision digits(s)+{-3,-1,0,1,2,20}; roots that are exactly a rounding midpoint ((m+1/2)^2) or lie a few units of a far lower place beside a midpoint or beside a representable value; x a few units of its last place below / above a power of ten (the root crosses a decade) at small precisions; odd and even exponents (incl. negative odd), exponents at both ends of the int32 range; random x with more / as many / fewer digits than the receiver; Sqrt(+0), Sqrt(-0), Sqrt(+Inf) for every mode; 25% with the receiver being the operand. Oracle: integer square root in big.Int + sticky, rounded once (model #1) and the definition check s^2 vs x on candidate neighbours (model #2). After the call the receiver's precision and mode must be what they were and a distinct operand must be bit-identical. Non-trivial = the exact root is not representable at the receiver's precision; distinct = hashes of (x, precision, mode, sharing).",
+		Rule:        "Cases: perfect squares s^2 (s of 1..80 digits, some to 1 500) and s^2+-1, at receiver precision digits(s)+{-3,-1,0,1,2,20}; roots that are exactly a rounding midpoint ((m+1/2)^2) or lie a few units of a far lower place beside a midpoint or beside a representable value; x a few units of its last place below / above a power of ten (the root crosses a decade) at small precisions; odd and even exponents (incl. negative odd), exponents at both ends of the int32 range; random x with more / as many / fewer digits than the receiver; Sqrt(+0), Sqrt(-0), Sqrt(+Inf) for every mode; 25% with the receiver being the operand. Oracle: integer square root in big.Int + sticky, rounded once (model #1) and the definition check s^2 vs x on candidate neighbours (model #2). After the call the receiver's precision and mode must be what they were and a distinct operand must be bit-identical. Non-trivial = the exact root is not representable at the receiver's precision; distinct = hashes of (x, precision, mode, sharing). Added in later rounds: short perfect squares at 900..2600 digits, operand precisions from the top of the range.",
 		Assumptions: []string{"operand lengths are capped at 700 digits quick / 3 000 thorough (Newton iteration cost)", "Acc() after Sqrt is not part of the statement and is not judged"},
 		Floors:      []floor{{"Sqrt/perfect-square", 3000}, {"Sqrt/root-is-tie", 3000}, {"Sqrt/root-just-above-tie", 2000}, {"Sqrt/root-just-below-tie", 2000}, {"Sqrt/root-just-above-representable", 2000}, {"Sqrt/root-just-below-representable", 2000}, {"Sqrt/special", 50}, {"Sqrt/just-below-power-of-ten", 3000}, {"mode/ToNegativeInf", 5000}, {"mode/AwayFromZero", 5000}},
 		LevelText:   "Runtime monitoring of Sqrt against the integer square root with cases constructed at the rounding boundaries (exact ties, perfect squares, neighbours one unit of a far lower place away), where an approximate Newton result is wrong.",
@@ -67,7 +67,7 @@ var props = map[string]*propCfg{
 		DesignRef:   "DESIGN.md §4 C04",
 	},
 	"C02": {
-		Rule:        "55% arithmetic cases (C01's generator for Add/Sub/Mul/Quo/Set/SetPrec plus C03's FMA generator, 35% of them re-targeted at a precision that makes the exact result representable so that Exact must be reported iff nothing was lost) and 45% setter cases: SetUint64/SetInt64 (edge values around 2^63, 2^64, 10^19, rounding-aimed digit strings), SetInt (1..6 000 digits, powers of 2 and 10, zero), SetRat (random, terminating and rounding-aimed exact quotients), NewDecimal (exponents over all of int incl. the int64 extremes), SetMantExp (results within +-3 of both range ends, int64-extreme offsets, zeros, infinities), base-10 literals via Parse(s,10), Parse(s,0) with '_' separators, SetString and UnmarshalText (leading/trailing zeros, point anywhere, exponents to both range ends); receiver precision 0 or 1..45 or digit count +-3, six modes. Oracle: only the line Acc == sign(stored - exact), evaluated by exact magnitude comparison against the stored value (infinities as +-oo, underflowed zeros against the tiny exact value); model #1 is used as a cross-check of that truth. Every case is non-trivial; distinct = hashes of the case description.",
+		Rule:        "55% arithmetic cases (C01's generator for Add/Sub/Mul/Quo/Set/SetPrec plus C03's FMA generator, 35% of them re-targeted at a precision that makes the exact result representable so that Exact must be reported iff nothing was lost) and 45% setter cases: SetUint64/SetInt64 (edge values around 2^63, 2^64, 10^19, rounding-aimed digit strings), SetInt (1..6 000 digits, powers of 2 and 10, zero), SetRat (random, terminating and rounding-aimed exact quotients), NewDecimal (exponents over all of int incl. the int64 extremes), SetMantExp (results within +-3 of both range ends, int64-extreme offsets, zeros, infinities), base-10 literals via Parse(s,10), Parse(s,0) with '_' separators, SetString and UnmarshalText (leading/trailing zeros, point anywhere, exponents to both range ends); receiver precision 0 or 1..45 or digit count +-3, six modes. Oracle: only the line Acc == sign(stored - exact), evaluated by exact magnitude comparison against the stored value (infinities as +-oo, underflowed zeros against the tiny exact value); model #1 is used as a cross-check of that truth. Every case is non-trivial; distinct = hashes of the case description. Added in later rounds: setter precisions from the top of the uint32 range, operands whose accuracy is Below/Above (hx.MkR), SetMantExp of zeros/infinities with such an accuracy, decimal mantissas with a small binary exponent, FMA addends that cancel the tail of a sparse product.",
 		Assumptions: []string{"Neg/Abs are not in the statement's list and are not judged", "for SetInt/SetRat with precision 0 the resulting precision is taken as found (C09 judges it)", "FMA cases whose exact product leaves the exponent range are known finding D15"},
 		Floors:      []floor{{"expected-acc/0", 100000}, {"expected-acc/1", 50000}, {"expected-acc/-1", 50000}, {"SetMantExp", 5000}, {"NewDecimal", 5000}, {"SetRat", 5000}, {"Parse10", 3000}, {"UnmarshalText", 3000}, {"FMA/", 10000}, {"Quo/", 10000}},
 		LevelText:   "Runtime monitoring of the accuracy flag against the exact value on every rounding operation of the statement; needs only the stored value and the exact value, not the rounding algorithm.",
@@ -75,7 +75,7 @@ var props = map[string]*propCfg{
 		DesignRef:   "DESIGN.md §4 C02",
 	},
 	"C06": {
-		Rule:        "Word-level cases through the verif exports: dec.mul (balanced, 1:2, 1:10, random lengths; dirty destination buffers), dec.sqr, dec.div on operands of 1..420 words (thorough: 1 100) whose words are drawn from {0, 1, 2, 10, 10^9, 10^18, base/2-1, base/2, base/2+1, base-2, base-1, random}; divisions: constructed add-back pairs (v=[..,0,base/2], u=[..,0,0,k]: the two-word test passes and q̂ is one too large), exact u=q*v, u=q*v+(v-1), dividends whose leading words equal the divisor's (q̂=base-1 path), 1- and 2-word divisors, divisors of 100..230 words with dividends spanning several recursion blocks; plus end-to-end Mul at precision = total digits (exact product) and Quo with the exact/inexact decision judged. Half of the cases run under a random threshold assignment (Karatsuba 2..40, basicSqr in {1,2,3,5,10,20}, karatsubaSqr in {2,3,4,6,11,50,100}) and half with the scratch pool poisoned (every buffer handed out or returned is overwritten with a word >= base). Oracle: big.Int product / QuoRem of the word vectors converted by harness code; operands unchanged; every output word < base. Hook counters prove that the add-back, q̂ correction, recursive corrections and Karatsuba branches were reached. Non-trivial = multi-word operands.",
+		Rule:        "Word-level cases through the verif exports: dec.mul (balanced, 1:2, 1:10, random lengths; dirty destination buffers), dec.sqr, dec.div on operands of 1..420 words (thorough: 1 100) whose words are drawn from {0, 1, 2, 10, 10^9, 10^18, base/2-1, base/2, base/2+1, base-2, base-1, random}; divisions: constructed add-back pairs (v=[..,0,base/2], u=[..,0,0,k]: the two-word test passes and q̂ is one too large), exact u=q*v, u=q*v+(v-1), dividends whose leading words equal the divisor's (q̂=base-1 path), 1- and 2-word divisors, divisors of 100..230 words with dividends spanning several recursion blocks; plus end-to-end Mul at precision = total digits (exact product) and Quo with the exact/inexact decision judged. Half of the cases run under a random threshold assignment (Karatsuba 2..40, basicSqr in {1,2,3,5,10,20}, karatsubaSqr in {2,3,4,6,11,50,100}) and half with the scratch pool poisoned (every buffer handed out or returned is overwritten with a word >= base). Oracle: big.Int product / QuoRem of the word vectors converted by harness code; operands unchanged; every output word < base. Hook counters prove that the add-back, q̂ correction, recursive corrections and Karatsuba branches were reached. Non-trivial = multi-word operands. Added in later rounds: B/k and binary-boundary edge words, block quotients of a few low words over a divisor with an almost empty low half, a few divisors of 6211..6300 (thorough: 12419..12700) words per run.",
 		Assumptions: []string{"thresholds and the pool callback are changed only between cases in a single-threaded worker", "the recursive-division threshold is a constant (100 words): both sides of it are exercised through the divisor length"},
 		Floors:      []floor{{"hit_div_add_back", 1000}, {"hit_div_qhat_fix", 1000}, {"hit_div_rec_fix1", 500}, {"hit_div_rec_fix2", 300}, {"hit_div_recursive", 500}, {"hit_karatsuba", 5000}, {"hit_karatsuba_negative", 1000}, {"hit_karatsuba_sqr", 1000}, {"hit_basic_sqr", 1000}, {"mul/", 5000}, {"sqr/", 3000}, {"div/", 8000}, {"Quo/e2e", 1000}, {"Mul/e2e", 1000}},
 		LevelText:   "Runtime monitoring of the multi-word routines against big.Int with adversarial word patterns, every threshold assignment family and a poisoned scratch pool; branch-hit counters from tag-guarded hooks show that the rare correction paths were actually executed.",
@@ -83,7 +83,7 @@ var props = map[string]*propCfg{
 		DesignRef:   "DESIGN.md §4 C06",
 	},
 	"C07": {
-		Rule:        "Part A (kernel twins): for each of the 12 decimal kernels and divWVW, inputs inside the precondition (words < base; dividend high word < divisor; shift 0..18; equal lengths except the add/sub kernels, whose sources may be longer than the destination as in u[j:]), lengths 0..70 (every residue mod 4, the >=4 fast paths and memcpy exits), edge words (0, 1, base-1, base/2, powers of ten, all-nines and all-zero vectors), the overlap shapes the library uses (z==x in place, z==y, z==x==y, shl with z above x, shr with z below x). Operands are carved out of mmap'ed arenas whose neighbouring pages are PROT_NONE (flush against the upper or the lower guard page) or surrounded by canary words; the selected implementation (assembly in the default build), the portable _g twin and a big.Int definition must agree on the output vector and the returned word; sources must be unchanged; words of an in-place operand beyond len(z) untouched. Part B (transcripts): every shard runs a deterministic program of public operations (arithmetic, Sqrt, setters, parse/format, conversions, gob/text round trips over 8 variables) and records SHA-256 digests per 250 steps; the driver requires identical digests from the workers built with tags {verif}, {verif,decimal_pure_go}, {verif,math_big_pure_go}, {verif,decimal_pure_go,math_big_pure_go} (thorough: also go1.26.8). Non-trivial = vector length > 0.",
+		Rule:        "Part A (kernel twins): for each of the 12 decimal kernels and divWVW, inputs inside the precondition (words < base; dividend high word < divisor; shift 0..18; equal lengths except the add/sub kernels, whose sources may be longer than the destination as in u[j:]), lengths 0..70 (every residue mod 4, the >=4 fast paths and memcpy exits), edge words (0, 1, base-1, base/2, powers of ten, all-nines and all-zero vectors), the overlap shapes the library uses (z==x in place, z==y, z==x==y, shl with z above x, shr with z below x). Operands are carved out of mmap'ed arenas whose neighbouring pages are PROT_NONE (flush against the upper or the lower guard page) or surrounded by canary words; the selected implementation (assembly in the default build), the portable _g twin and a big.Int definition must agree on the output vector and the returned word; sources must be unchanged; words of an in-place operand beyond len(z) untouched. Part B (transcripts): every shard runs a deterministic program of public operations (arithmetic, Sqrt, setters, parse/format, conversions, gob/text round trips over 8 variables) and records SHA-256 digests per 250 steps; the driver requires identical digests from the workers built with tags {verif}, {verif,decimal_pure_go}, {verif,math_big_pure_go}, {verif,decimal_pure_go,math_big_pure_go} (thorough: also go1.26.8). Non-trivial = vector length > 0. Added in later rounds: 1 kernel case in 3000 uses vectors of 4095..20000 words in 20480-word guard-page arenas, with carries/borrows that ripple through every word; 6 in 100 place two buffers at addresses exactly 4 GiB apart (far pair); word pairs from the binary-boundary set.",
 		Assumptions: []string{"inputs outside a kernel's precondition are never generated (e.g. shl/shr/mulAdd/addMul/div kernels are only called with len(x) == len(z) by the library)", "a read past a slice is only detected for operands flush against a guard page (one third of the placements); writes are also detected by canaries", "receiver contents after an error or an ErrNaN panic are undefined and excluded from the transcript line"},
 		Floors:      []floor{{"kernel/add10VV", 15000}, {"kernel/shl10VU", 15000}, {"kernel/div10VWW", 15000}, {"kernel/divWVW", 15000}, {"kernel/mul10WW", 15000}, {"shape/1", 20000}, {"shape/4", 2000}, {"transcript_steps", 70000}, {"transcript_chunk_digests_compared", 300}},
 		Variants: []variant{
@@ -98,7 +98,7 @@ var props = map[string]*propCfg{
 		DesignRef:        "DESIGN.md §4 C07",
 	},
 	"C08": {
-		Rule:        "Random programs of 60 (thorough: 100) public operations over 8 variables with receivers reused and aliased: Add/Sub/Mul/Quo/FMA/Sqrt, Set/Neg/Abs/Copy, SetPrec (incl. 0)/SetMode, SetInt64/SetUint64/SetInt/SetRat/SetFloat64/SetFloat, Parse/SetString/UnmarshalText of generated literals and token soup in every base, SetMantExp (exponents to both int32 ends and int64 extremes)/MantExp, SetBitsExp (valid words, any int64 exponent), SetInf, Gob round trips directly and through encoding/gob, decoding of mutated Gob payloads (accepted => must be canonical), text round trips, NewDecimal, getters. After EVERY step the walker visits ALL variables: finite => non-empty mantissa, all words < 10^19, leading word >= 10^18, 1 <= MinPrec <= Prec, mode and accuracy in range; zero/infinity => no mantissa exposed, MinPrec 0, MantExp 0 and prints as a bare signed 0/Inf; the receiver is compared with every other variable: Cmp == 0 iff equal exponent and equal digits after stripping low zero words. Any non-ErrNaN panic, or an ErrNaN on a valid call, is also a violation. Every evaluated step is non-trivial; distinct counted per step (fresh PRNG state).",
+		Rule:        "Random programs of 60 (thorough: 100) public operations over 8 variables with receivers reused and aliased: Add/Sub/Mul/Quo/FMA/Sqrt, Set/Neg/Abs/Copy, SetPrec (incl. 0)/SetMode, SetInt64/SetUint64/SetInt/SetRat/SetFloat64/SetFloat, Parse/SetString/UnmarshalText of generated literals and token soup in every base, SetMantExp (exponents to both int32 ends and int64 extremes)/MantExp, SetBitsExp (valid words, any int64 exponent), SetInf, Gob round trips directly and through encoding/gob, decoding of mutated Gob payloads (accepted => must be canonical), text round trips, NewDecimal, getters. After EVERY step the walker visits ALL variables: finite => non-empty mantissa, all words < 10^19, leading word >= 10^18, 1 <= MinPrec <= Prec, mode and accuracy in range; zero/infinity => no mantissa exposed, MinPrec 0, MantExp 0 and prints as a bare signed 0/Inf; the receiver is compared with every other variable: Cmp == 0 iff equal exponent and equal digits after stripping low zero words. Any non-ErrNaN panic, or an ErrNaN on a valid call, is also a violation. Every evaluated step is non-trivial; distinct counted per step (fresh PRNG state). Added in later rounds: SetBitsExp with the receiver's own slice edited in place, SetPrec beyond MaxPrec, SetFloat at the ends of big.Float's exponent range, and a storage-ownership probe (two variables whose mantissa arrays overlap: one is modified in place, the other must not change).",
 		Assumptions: []string{"steps that would materialise an exponent gap > 4 000 digits or allocate by a precision > 6 500 are skipped and counted", "the raw exponent BitsExp returns for a zero/infinity is a leftover field and is not examined"},
 		Floors:      []floor{{"walker_visits", 1000000}, {"walker_zero", 100000}, {"walker_inf", 20000}, {"equal_value_pairs", 5000}, {"op/GobDecode", 3000}, {"op/SetBitsExp", 3000}, {"op/SetMantExp", 3000}, {"op/Quo", 5000}, {"ErrNaN_panics", 1000}},
 		LevelText:   "Runtime invariant checking: a representation-invariant walker over all live variables after every step of random API programs (structural invariant at quiescent points).",
@@ -106,7 +106,7 @@ var props = map[string]*propCfg{
 		DesignRef:   "DESIGN.md §4 C08",
 	},
 	"C09": {
-		Rule:        "Same program engine as C08 (without corrupted Gob payloads). A wrapper at the client boundary snapshots all 8 variables (raw words, exponent, sign, class, precision, mode, accuracy) and the math/big arguments before each call; afterwards every variable the operation is not documented to write must be bit-identical, big.Int/Rat/Float arguments unchanged; the receiver's mode must be unchanged except for the documented copiers (Copy, SetMantExp, MantExp's out-parameter, SetMode, GobDecode into a precision-0 receiver); the receiver's precision must be unchanged if it was non-zero, otherwise equal to the documented value (largest operand precision for Add/Sub/Mul/Quo/FMA, x's for Sqrt/Set/Neg/Abs, 34 for SetInt64/SetUint64/strings, 17 for SetFloat64, ceil(prec*log10 2) for SetFloat, the interval [max(34,MinPrec), max(34,digits/BitLen)] for SetInt/SetRat) or left at 0 for a zero/infinite result. Non-trivial = steps with a receiver.",
+		Rule:        "Same program engine as C08 (without corrupted Gob payloads). A wrapper at the client boundary snapshots all 8 variables (raw words, exponent, sign, class, precision, mode, accuracy) and the math/big arguments before each call; afterwards every variable the operation is not documented to write must be bit-identical, big.Int/Rat/Float arguments unchanged; the receiver's mode must be unchanged except for the documented copiers (Copy, SetMantExp, MantExp's out-parameter, SetMode, GobDecode into a precision-0 receiver); the receiver's precision must be unchanged if it was non-zero, otherwise equal to the documented value (largest operand precision for Add/Sub/Mul/Quo/FMA, x's for Sqrt/Set/Neg/Abs, 34 for SetInt64/SetUint64/strings, 17 for SetFloat64, ceil(prec*log10 2) for SetFloat, the interval [max(34,MinPrec), max(34,digits/BitLen)] for SetInt/SetRat) or left at 0 for a zero/infinite result. Non-trivial = steps with a receiver. Added in later rounds: after an ErrNaN panic or a reported error the receiver's mode and a precision that was set must have survived; operands are compared bit for bit including the leftover exponent of zeros/infinities.",
 		Assumptions: []string{"receiver attributes are not judged after an error return or an ErrNaN panic (contents documented as undefined); operands still are", "GobDecode of an empty buffer (documented as 'the other side sent a default value': the receiver is reset) is not generated", "for SetInt/SetRat with precision 0 the doc comment and the code name different formulas; both lie in the accepted interval"},
 		Floors:      []floor{{"operand_snapshots_compared", 1000000}, {"op/Add/prec=0", 300}, {"op/Sqrt/prec=0", 100}, {"op/SetInt/prec=0", 100}, {"op/SetFloat64/prec=0", 100}, {"op/GobDecode/prec=0", 100}, {"op/SetMantExp", 3000}, {"op/MantExp", 1500}},
 		LevelText:   "Runtime monitoring at the client boundary: snapshot/compare of all variables around every call of random programs, attribute rules per operation.",
@@ -114,7 +114,7 @@ var props = map[string]*propCfg{
 		DesignRef:   "DESIGN.md §4 C09",
 	},
 	"C20": {
-		Rule:        "SetBitsExp(mant, exp): slices of 0..40 words (edge words, high zero words, low zero words, top word of 1..18 digits, all zero, all nines), exponents over all of int64 (both extremes, random 64-bit values, within 25 of either range end), receiver precision 1..60, smaller than the slice, or 0; six modes; receivers that held another value; oracle = +sum(m[i] B^i) x 10^(exp - 19 len) evaluated with a big.Int exponent (cannot wrap), rounded once by both models; all-zero => +0. BitsExp: values built through three routes (parser, arithmetic, raw) must be denoted exactly by the returned pair and by the independent 'p'-format read-out, with the exponent equal to the leading digit's. MantExp: exponent = leading digit's, mant in [0.1,1) with x's precision and mode, nil / fresh / same-variable out-parameter, ±0 and ±Inf special cases, x unchanged, and the documented identity SetMantExp(mant, x.MantExp(mant)) == x. SetMantExp(mant, k): exact mant x 10^k with k small, landing within 4 of either range end, anywhere in int, at the int64 extremes; ±0/±Inf exactly when the exponent leaves the range; attributes copied from mant; mant unchanged. Non-trivial = finite, non-empty inputs.",
+		Rule:        "SetBitsExp(mant, exp): slices of 0..40 words (edge words, high zero words, low zero words, top word of 1..18 digits, all zero, all nines), exponents over all of int64 (both extremes, random 64-bit values, within 25 of either range end), receiver precision 1..60, smaller than the slice, or 0; six modes; receivers that held another value; oracle = +sum(m[i] B^i) x 10^(exp - 19 len) evaluated with a big.Int exponent (cannot wrap), rounded once by both models; all-zero => +0. BitsExp: values built through three routes (parser, arithmetic, raw) must be denoted exactly by the returned pair and by the independent 'p'-format read-out, with the exponent equal to the leading digit's. MantExp: exponent = leading digit's, mant in [0.1,1) with x's precision and mode, nil / fresh / same-variable out-parameter, ±0 and ±Inf special cases, x unchanged, and the documented identity SetMantExp(mant, x.MantExp(mant)) == x. SetMantExp(mant, k): exact mant x 10^k with k small, landing within 4 of either range end, anywhere in int, at the int64 extremes; ±0/±Inf exactly when the exponent leaves the range; attributes copied from mant; mant unchanged. Non-trivial = finite, non-empty inputs. Added in later rounds: the BitsExp -> edit in place -> SetBitsExp idiom, leading zero words on precision-0 receivers, MantExp's destination probed for shared storage, one slice of more than 2^32 digits and one with more than 2^31 leading zero digits per run (1.8 GB and 0.9 GB of untouched zero pages).",
 		Assumptions: []string{"for a precision-0 receiver of SetBitsExp the chosen precision is undocumented: only 'stored exactly and MinPrec <= Prec' is demanded", "accuracy after SetBitsExp is not part of the statement"},
 		Floors:      []floor{{"SetBitsExp/", 40000}, {"SetBitsExp/prec0", 3000}, {"BitsExp/", 10000}, {"MantExp/", 10000}, {"SetMantExp/range-end", 5000}, {"SetMantExp/int64-extreme", 2000}},
 		LevelText:   "Runtime monitoring of the raw access and MantExp/SetMantExp pairs against exact values with exponents evaluated in big.Int, over the whole int64 exponent space.",
@@ -122,7 +122,7 @@ var props = map[string]*propCfg{
 		DesignRef:   "DESIGN.md §4 C20",
 	},
 	"C14": {
-		Rule:        "Getters (60%): values clustered at 2^63, 2^64, 10^18, 10^19, 10^20, 10^38 (+-3, with fractional parts of 1..30 digits incl. all-nines fractions, and integers written with positive exponents), exponents 0..25 (both sides of the x.exp <= 20 branch), moderate exponents to +-20 000, zeros and infinities; for each: Int (nil and provided destination), Int64, Uint64, Rat (nil and provided), IsInt, MinPrec compared with the exact rational (truncation toward zero, saturation values and accuracies as documented, Exact iff nothing discarded), x unchanged. Setters (40%): SetUint64/SetInt64 (edge values), SetInt (1..20 000 digits, powers of 2 and 10, all nines, rounding-aimed, zero), SetRat (random, terminating, exact quotients, integers), NewDecimal (exponents over all of int incl. both range ends and the int64 extremes) judged by both oracle models at the receiver's precision; with a precision-0 receiver an integer argument must be stored exactly; arguments unchanged; an exactly stored result must report Exact. Non-trivial = finite operands / every setter case.",
+		Rule:        "Getters (60%): values clustered at 2^63, 2^64, 10^18, 10^19, 10^20, 10^38 (+-3, with fractional parts of 1..30 digits incl. all-nines fractions, and integers written with positive exponents), exponents 0..25 (both sides of the x.exp <= 20 branch), moderate exponents to +-20 000, zeros and infinities; for each: Int (nil and provided destination), Int64, Uint64, Rat (nil and provided), IsInt, MinPrec compared with the exact rational (truncation toward zero, saturation values and accuracies as documented, Exact iff nothing discarded), x unchanged. Setters (40%): SetUint64/SetInt64 (edge values), SetInt (1..20 000 digits, powers of 2 and 10, all nines, rounding-aimed, zero), SetRat (random, terminating, exact quotients, integers), NewDecimal (exponents over all of int incl. both range ends and the int64 extremes) judged by both oracle models at the receiver's precision; with a precision-0 receiver an integer argument must be stored exactly; arguments unchanged; an exactly stored result must report Exact. Non-trivial = finite operands / every setter case. Added in later rounds: SetInt arguments to 160000 digits, precisions of 2^31 and above for IsInt/MinPrec, one SetInt of 430000..470000 digits and one Rat with a million-digit fraction per run.",
 		Assumptions: []string{"Int and Rat are exercised at |exponent| <= 20 000 (they materialise 10^|exp|)", "the accuracy returned by Int/Rat for an infinity is not in the statement and is not judged"},
 		Floors:      []floor{{"getter/around-boundaries", 30000}, {"getter/exp-0-25", 20000}, {"getter/inf", 3000}, {"SetInt", 10000}, {"SetRat", 10000}, {"NewDecimal", 10000}, {"precision0_integer_exact", 3000}},
 		LevelText:   "Runtime monitoring of every conversion against exact big.Int/big.Rat values, aimed at the saturation bounds and word boundaries.",
@@ -130,7 +130,7 @@ var props = map[string]*propCfg{
 		DesignRef:   "DESIGN.md §4 C14",
 	},
 	"C15": {
-		Rule:        "SetFloat64 (30%): float64 bit patterns (uniform bits, subnormals, powers of two +-1 ulp, extremes, short binary fractions, decimal-looking values, +-0, +-Inf, NaN) at precision 0 (-> 17), 1..40 and 700..800 (holds every float64 expansion): sign kept, zeros/infinities mapped to themselves, NaN => ErrNaN, exact whenever MinPrec(expansion) <= precision, otherwise at most one unit in the last place from RoundOnce(exact). SetFloat (15%): big.Float of 1..2 000 bits, binary exponents to +-3 000 (thorough +-100 000), +-0 and +-Inf: same rules with a 64-unit bound; argument unchanged. Float64/Float32 (40%): Decimals on the float grid, at exact midpoints of adjacent floats, and those nudged by a relative 10^-3..10^-60; values around both ends of each format's range and at astronomically large exponents; zeros, infinities: the returned value must be the float nearest to x (big.Rat.Float64/Float32 on the exact rational, range alone beyond |exponent| 400) and the accuracy sign(returned - x). Float (15%): result precision as documented, within 64 binary units of x, special values. Non-trivial = finite inputs.",
+		Rule:        "SetFloat64 (30%): float64 bit patterns (uniform bits, subnormals, powers of two +-1 ulp, extremes, short binary fractions, decimal-looking values, +-0, +-Inf, NaN) at precision 0 (-> 17), 1..40 and 700..800 (holds every float64 expansion): sign kept, zeros/infinities mapped to themselves, NaN => ErrNaN, exact whenever MinPrec(expansion) <= precision, otherwise at most one unit in the last place from RoundOnce(exact). SetFloat (15%): big.Float of 1..2 000 bits, binary exponents to +-3 000 (thorough +-100 000), +-0 and +-Inf: same rules with a 64-unit bound; argument unchanged. Float64/Float32 (40%): Decimals on the float grid, at exact midpoints of adjacent floats, and those nudged by a relative 10^-3..10^-60; values around both ends of each format's range and at astronomically large exponents; zeros, infinities: the returned value must be the float nearest to x (big.Rat.Float64/Float32 on the exact rational, range alone beyond |exponent| 400) and the accuracy sign(returned - x). Float (15%): result precision as documented, within 64 binary units of x, special values. Non-trivial = finite inputs. Added in later rounds: receivers at MaxPrec, dirty Float destinations, Float beyond big.Float's exponent range, over-wide big.Floats, short decimal integers c x 10^n, float64 look-alikes at the ends of the double's range, thousands of digits into thousands of bits, precision-0 zeros; the accuracy of Float64/Float32 is judged against the returned value for every finite input.",
 		Assumptions: []string{"'a few dozen units' (SetFloat, Float) is read as 64 units in the last place: a drift alarm, not a tight specification", "big.Float binary exponents are capped (oracle cost): +-3 000 quick, +-100 000 thorough", "Float64/Float32 results for x within 2^-8 ulp (float64) / 2^-5 ulp (float32) of a multiple of half the format's spacing are known finding D12 as far as the returned VALUE is concerned (double rounding through a 64/32-bit big.Float may return the second-nearest value at a midpoint); everything outside that band is a violation, and the accuracy is judged for every finite input against the value that was returned"},
 		Floors:      []floor{{"SetFloat64/", 30000}, {"setfloat64_exactly_representable", 3000}, {"SetFloat/finite", 10000}, {"Float64/midpoint", 5000}, {"Float32/midpoint", 2000}, {"tofloat_outside_double_rounding_band", 10000}, {"tofloat_accuracy_judged_against_returned_value", 50000}, {"Float/finite", 10000}, {"Float64/range-edge", 3000}},
 		LevelText:   "Runtime monitoring of the binary conversions against exact rationals (big.Rat) with inputs constructed on and beside the float grid.",
@@ -138,7 +138,7 @@ var props = map[string]*propCfg{
 		DesignRef:   "DESIGN.md §4 C15",
 	},
 	"C16": {
-		Rule:        "Triples (a, b, c): a random (1..120 digits, exponents incl. both range ends, zeros, infinities), b related to a (equal; negated; last digit +-1; same value with a longer mantissa +-1 in a far lower place; exponent +-1; equal with trailing zeros moved into the exponent; unrelated), c related to b or random. Each value is built through a different route (raw words with extra low zero words, parser at a larger precision, arithmetic result, a receiver that held a 100..400-digit value before, plain) with random precision, mode and accuracy history. All nine Cmp results must equal the sign of the exact difference (class, then leading-digit exponent, then aligned coefficients), be antisymmetric, and the library's own answers must sort transitively; Sign, Signbit, IsZero, IsInf must agree; operands unchanged. Non-trivial = b related to a.",
+		Rule:        "Triples (a, b, c): a random (1..120 digits, exponents incl. both range ends, zeros, infinities), b related to a (equal; negated; last digit +-1; same value with a longer mantissa +-1 in a far lower place; exponent +-1; equal with trailing zeros moved into the exponent; unrelated), c related to b or random. Each value is built through a different route (raw words with extra low zero words, parser at a larger precision, arithmetic result, a receiver that held a 100..400-digit value before, plain) with random precision, mode and accuracy history. All nine Cmp results must equal the sign of the exact difference (class, then leading-digit exponent, then aligned coefficients), be antisymmetric, and the library's own answers must sort transitively; Sign, Signbit, IsZero, IsInf must agree; operands unchanged. Non-trivial = b related to a. Added in later rounds: precisions from the top of the range on any route, values related by whole words (extra low words from the binary-boundary set, +-d in two words).",
 		Assumptions: []string{"values are constructed through public setters and verified by read-back before use"},
 		Floors:      []floor{{"pair/equal", 5000}, {"pair/last-digit", 5000}, {"pair/longer-mantissa", 5000}, {"pair/equal-trailing-zeros", 5000}, {"route/low-zero-words", 20000}, {"comparisons", 1000000}},
 		LevelText:   "Runtime monitoring of Cmp against the exact order on pairs constructed to be equal up to representation or to differ in the last place only.",
@@ -146,7 +146,7 @@ var props = map[string]*propCfg{
 		DesignRef:   "DESIGN.md §4 C16",
 	},
 	"C12": {
-		Rule:        "Decimal literals (35%): generated from a digit string (1..6 000 digits, rounding-aimed or patterned, leading/trailing zeros, all zeros), a radix point anywhere, an exponent to both ends of the int32 range, rendered plainly and with '_' separators, through Parse(s,10), Parse(s,0), SetString, ParseDecimal, UnmarshalText and fmt.Sscan; receiver precision 0 (-> 34), 1..45 or digit count +-3, six modes, dirty receivers: value and accuracy against the exact literal value by both oracle models, reported base, resulting precision and mode. Binary literals (20%): 0b/0o/0x mantissas with optional fraction and optional p exponent, decimal mantissas with a p exponent: exact value m x 2^k; stored exactly when its decimal expansion fits the precision, otherwise within one unit of the correctly rounded value; detected base. Exponent range (10%): non-zero and zero mantissas with exponents within 400 (sometimes 200 000) of +-2^31, 2^32, 2^63, 2^64, k*2^64, 2^65 and 11..30-digit exponents, with sign and leading-zero variants: accepted exactly when the exponent text fits an int64 and the leading digit's exponent (computed in big.Int) lies in [MinExp, MaxExp], then stored exactly-then-rounded; rejected with a nil result otherwise. Language (40%): token soup, mutated and truncated literals, literals with trailing garbage, x bases {0,2,8,10,16}: no entry point may panic; a failed call returns a nil *Decimal; an accepted one leaves a canonical value; acceptance and detected base must equal big.Float.Parse for literals whose exponent magnitude is <= 10^4 (beyond that math/big's binary exponent range differs). Every case is non-trivial.",
+		Rule:        "Decimal literals (35%): generated from a digit string (1..6 000 digits, rounding-aimed or patterned, leading/trailing zeros, all zeros), a radix point anywhere, an exponent to both ends of the int32 range, rendered plainly and with '_' separators, through Parse(s,10), Parse(s,0), SetString, ParseDecimal, UnmarshalText and fmt.Sscan; receiver precision 0 (-> 34), 1..45 or digit count +-3, six modes, dirty receivers: value and accuracy against the exact literal value by both oracle models, reported base, resulting precision and mode. Binary literals (20%): 0b/0o/0x mantissas with optional fraction and optional p exponent, decimal mantissas with a p exponent: exact value m x 2^k; stored exactly when its decimal expansion fits the precision, otherwise within one unit of the correctly rounded value; detected base. Exponent range (10%): non-zero and zero mantissas with exponents within 400 (sometimes 200 000) of +-2^31, 2^32, 2^63, 2^64, k*2^64, 2^65 and 11..30-digit exponents, with sign and leading-zero variants: accepted exactly when the exponent text fits an int64 and the leading digit's exponent (computed in big.Int) lies in [MinExp, MaxExp], then stored exactly-then-rounded; rejected with a nil result otherwise. Language (40%): token soup, mutated and truncated literals, literals with trailing garbage, x bases {0,2,8,10,16}: no entry point may panic; a failed call returns a nil *Decimal; an accepted one leaves a canonical value; acceptance and detected base must equal big.Float.Parse for literals whose exponent magnitude is <= 10^4 (beyond that math/big's binary exponent range differs). Every case is non-trivial. Added in later rounds: SetString/ParseDecimal/UnmarshalText must agree with Parse (acceptance and state), foreign spellings (null, <nil>, ...), Sscanf with every floating-point verb, binary exponents around and beyond +-2^31/2^32/2^63/2^64, mixed-base literals (0b/0o mantissa with a fraction and a decimal exponent) aimed at both ends of the range and at rounding carries, ParseDecimal precisions beyond 2^32, binary literals into receivers at the top of the precision range.",
 		Assumptions: []string{"Scan (fmt) accepts a valid prefix by design: its acceptance is not compared with Parse's", "language comparison is limited to exponent magnitudes <= 10^4; range rejections beyond that are covered by the decimal-literal cases at both range ends"},
 		Floors:      []floor{{"decimal/", 60000}, {"binary/", 30000}, {"binary_exactly_representable", 5000}, {"range/accepted", 1500}, {"range/rejected", 15000}, {"language/accepted", 10000}, {"language/rejected", 20000}, {"language_compared_with_math_big", 40000}, {"entry_point_calls", 150000}},
 		LevelText:   "Runtime monitoring of the parser against exact literal values and against math/big's parser as a reference for the accepted language; grammar-aware fuzzing for totality.",
@@ -154,7 +154,7 @@ var props = map[string]*propCfg{
 		DesignRef:   "DESIGN.md §4 C12",
 	},
 	"C13": {
-		Rule:        "Differential (55%, no model): every finite float64 has a finite exact decimal expansion; x = that expansion as a Decimal in ToNearestEven. Text/Append(x, f, prec) must equal strconv.FormatFloat(v, f, prec, 64) for f in e E f g G and prec 0..45 (prec -1 only when strconv's shortest form is the exact expansion), and fmt.Sprintf(verb, x) must equal fmt.Sprintf(verb, v) for verbs e E f F g G v x every subset of the flags '+', ' ', '-', '0' x width 0..30 x precision 0..20 or absent, incl. +-0, +-Inf, values at the %g thresholds and 9.99->10.0 carries. Model (45%): arbitrary Decimals (1..200 digits, digit strings aimed at the requested rounding position incl. positions at or above the leading digit, six modes, zeros, infinities): Text(f, prec) for f in e E f g G and prec -1..40 must equal RoundToPlace(x, position, x.Mode()) laid out by a port of strconv's %e/%f/%g rules, itself cross-checked against strconv on every differential case; 'p' and 'b' layouts directly; String() = Text('g', 10). x unchanged. Non-trivial = finite values.",
+		Rule:        "Differential (55%, no model): every finite float64 has a finite exact decimal expansion; x = that expansion as a Decimal in ToNearestEven. Text/Append(x, f, prec) must equal strconv.FormatFloat(v, f, prec, 64) for f in e E f g G and prec 0..45 (prec -1 only when strconv's shortest form is the exact expansion), and fmt.Sprintf(verb, x) must equal fmt.Sprintf(verb, v) for verbs e E f F g G v x every subset of the flags '+', ' ', '-', '0' x width 0..30 x precision 0..20 or absent, incl. +-0, +-Inf, values at the %g thresholds and 9.99->10.0 carries. Model (45%): arbitrary Decimals (1..200 digits, digit strings aimed at the requested rounding position incl. positions at or above the leading digit, six modes, zeros, infinities): Text(f, prec) for f in e E f g G and prec -1..40 must equal RoundToPlace(x, position, x.Mode()) laid out by a port of strconv's %e/%f/%g rules, itself cross-checked against strconv on every differential case; 'p' and 'b' layouts directly; String() = Text('g', 10). x unchanged. Non-trivial = finite values. Added in later rounds: a top-decade rounding class, %s / precision-less %v / %b / unknown verbs through Format, field widths to 900, runs of more than a million zeros.",
 		Assumptions: []string{"excluded because they are not what the statement names: the '#' flag; '+'/' ' combined with %v (fmt turns them into plusV/spaceV for built-in floats, which a Formatter cannot observe); precision-less %g/%G/%v unless the float's shortest form is its exact expansion", "'f' is exercised at |exponent| <= 3 000"},
 		Floors:      []floor{{"strconv/", 50000}, {"fmt/", 50000}, {"model/f/position-at-or-above-leading-digit", 1500}, {"model/e/aimed-at-position", 3000}, {"model/g/aimed-at-position", 3000}, {"model/p/", 8000}, {"model/b/", 8000}, {"fmt_model_cases", 10000}, {"mode/ToNegativeInf", 10000}},
 		LevelText:   "Runtime differential monitoring of formatting against strconv and fmt themselves on float64-representable values, plus a strconv-validated layout model for arbitrary Decimals in all six modes.",
@@ -162,7 +162,7 @@ var props = map[string]*propCfg{
 		DesignRef:   "DESIGN.md §4 C13",
 	},
 	"C11": {
-		Rule:        "Values (1..3 000 digits incl. interior and trailing zero words, exponents from MinExp to MaxExp, both signs, zeros, infinities) built through five routes (raw words with extra low zero words, parser, arithmetic, reused longer buffer, plain) are printed with Text/Append in e, E, f (|exponent| < 5 000), g, G, p at precision -1, with b, MarshalText and json.Marshal; the text must (1) carry exactly the oracle's significant digits, MinPrec of them (first through last non-zero digit of the mantissa part; not for b/JSON), (2) parse back (Parse base 10 / SetString / UnmarshalText / json.Unmarshal) into receivers of precision max(1,MinPrec), +1 and +40, any mode, dirty or fresh, to exactly x's value and sign incl. -0 and +-Inf, comparing equal to x. x unchanged. Non-trivial = finite values.",
+		Rule:        "Values (1..3 000 digits incl. interior and trailing zero words, exponents from MinExp to MaxExp, both signs, zeros, infinities) built through five routes (raw words with extra low zero words, parser, arithmetic, reused longer buffer, plain) are printed with Text/Append in e, E, f (|exponent| < 5 000), g, G, p at precision -1, with b, MarshalText and json.Marshal; the text must (1) carry exactly the oracle's significant digits, MinPrec of them (first through last non-zero digit of the mantissa part; not for b/JSON), (2) parse back (Parse base 10 / SetString / UnmarshalText / json.Unmarshal) into receivers of precision max(1,MinPrec), +1 and +40, any mode, dirty or fresh, to exactly x's value and sign incl. -0 and +-Inf, comparing equal to x. x unchanged. Non-trivial = finite values. Added in later rounds: Append into buffers with spare capacity, the MarshalText result overwritten by its owner before the next call, a second formatting after an in-place update of interior mantissa words.",
 		Assumptions: []string{"'f' output is generated only for |exponent| < 5 000 (it materialises the exponent)"},
 		Floors:      []floor{{"format/e/finite", 8000}, {"format/f/finite", 5000}, {"format/g/finite", 8000}, {"format/p/finite", 8000}, {"format/b/finite", 8000}, {"format/JSON/finite", 8000}, {"format/MarshalText/finite", 8000}, {"round_trips", 250000}, {"route/low-zero-words", 10000}},
 		LevelText:   "Runtime round-trip monitoring (metamorphic): print, check the digits against the exact value, parse back at three precisions.",
@@ -170,7 +170,7 @@ var props = map[string]*propCfg{
 		DesignRef:   "DESIGN.md §4 C11",
 	},
 	"C17": {
-		Rule:        "Round trips (25%): values of every form x mode x accuracy (Below/Above produced by real roundings) x precisions incl. mantissas much shorter than the precision, through GobEncode/GobDecode and through encoding/gob streams into a zero value: value, sign, precision, mode and accuracy must come back; x unchanged. Into a receiver with precision q != 0 (15%): q and the receiver's mode kept, value = the transmitted value rounded once to (q, mode) by both oracle models. Hostile bytes (60%): valid encodings truncated at every length, with one bit flipped (header and body), with random byte edits, extended with trailing bytes; hand-built payloads with form 3, mode 6/7, accuracy 3, precision 0 / 2^32-1 / random, exponent anywhere, mantissa words >= 10^19, 2^64-1, zero or short leading word, partial last word; random bytes. GobDecode must never panic; whatever it returns, the receiver must pass the C08 walker; an accepted payload must survive a battery of follow-up calls (Text, Cmp, Add, Mul, Sub, Set, Neg, Int64, re-encoding and decoding to an equal value). Every case is non-trivial.",
+		Rule:        "Round trips (25%): values of every form x mode x accuracy (Below/Above produced by real roundings) x precisions incl. mantissas much shorter than the precision, through GobEncode/GobDecode and through encoding/gob streams into a zero value: value, sign, precision, mode and accuracy must come back; x unchanged. Into a receiver with precision q != 0 (15%): q and the receiver's mode kept, value = the transmitted value rounded once to (q, mode) by both oracle models. Hostile bytes (60%): valid encodings truncated at every length, with one bit flipped (header and body), with random byte edits, extended with trailing bytes; hand-built payloads with form 3, mode 6/7, accuracy 3, precision 0 / 2^32-1 / random, exponent anywhere, mantissa words >= 10^19, 2^64-1, zero or short leading word, partial last word; random bytes. GobDecode must never panic; whatever it returns, the receiver must pass the C08 walker; an accepted payload must survive a battery of follow-up calls (Text, Cmp, Add, Mul, Sub, Set, Neg, Int64, re-encoding and decoding to an equal value). Every case is non-trivial. Added in later rounds: both buffers (GobEncode's result, GobDecode's input) are overwritten by their owner afterwards, a mantissa word exactly equal to the base.",
 		Assumptions: []string{"the follow-up battery is skipped (and counted) when an accepted payload carries a precision above 100 000: a legitimate attribute, but Set/Mul at that size only test the allocator"},
 		Floors:      []floor{{"roundtrip/direct", 20000}, {"roundtrip/encoding-gob", 20000}, {"roundtrip-acc/-1", 5000}, {"roundtrip-acc/1", 5000}, {"into-receiver", 25000}, {"hostile/truncated", 20000}, {"hostile/bit-flip", 20000}, {"hostile/hand-built", 30000}, {"hostile_accepted", 20000}, {"hostile_rejected", 50000}},
 		LevelText:   "Runtime monitoring of the Gob codec: attribute-exact round trips, oracle-checked rounding into receivers, and field-aware fuzzing of the decoder with the invariant walker and a follow-up battery as oracles.",
@@ -178,7 +178,7 @@ var props = map[string]*propCfg{
 		DesignRef:   "DESIGN.md §4 C17",
 	},
 	"C19": {
-		Rule:        "Sequences of 30 context operations run in lock-step with a sequential model {prec, mode, latched}: Add/Sub/Mul/Quo/FMA/Sqrt/Neg/Abs/Set on operands of every class (finite to 60 digits, +-0, +-Inf: valid and NaN-producing combinations), receivers with their own precision/mode/old contents (12% also an operand), Err, SetPrec (incl. 0), SetMode, and the factories New/NewInt/NewInt64/NewUint64/NewRat/NewFloat64 (25% NaN)/NewFloat/NewString/ParseDecimal. Per step: while the model is latched, an operation must return the same pointer and leave the receiver's entire raw state unchanged; otherwise a receiver distinct from the operands must hold the exact result rounded once to the CONTEXT's precision and mode (both oracle models) and carry those attributes; a NaN-producing call must not panic and latches the model (first error wins); Err() returns an ErrNaN exactly once, then nil, and re-arms. Panics that are not ErrNaN are injected three ways - a nil operand (runtime error), an error value and a string raised from inside the library's rounding step through the verif hook - and must escape without latching the context. Factories: attributes = context's, exact ones judged for value. Every step is non-trivial.",
+		Rule:        "Sequences of 30 context operations run in lock-step with a sequential model {prec, mode, latched}: Add/Sub/Mul/Quo/FMA/Sqrt/Neg/Abs/Set on operands of every class (finite to 60 digits, +-0, +-Inf: valid and NaN-producing combinations), receivers with their own precision/mode/old contents (12% also an operand), Err, SetPrec (incl. 0), SetMode, and the factories New/NewInt/NewInt64/NewUint64/NewRat/NewFloat64 (25% NaN)/NewFloat/NewString/ParseDecimal. Per step: while the model is latched, an operation must return the same pointer and leave the receiver's entire raw state unchanged; otherwise a receiver distinct from the operands must hold the exact result rounded once to the CONTEXT's precision and mode (both oracle models) and carry those attributes; a NaN-producing call must not panic and latches the model (first error wins); Err() returns an ErrNaN exactly once, then nil, and re-arms. Panics that are not ErrNaN are injected three ways - a nil operand (runtime error), an error value and a string raised from inside the library's rounding step through the verif hook - and must escape without latching the context. Factories: attributes = context's, exact ones judged for value. Every step is non-trivial. Added in later rounds: precisions beyond 2^32 through New and SetPrec, binary factories judged (sign, class, distance), FMA products beyond the range with infinite addends (D15 matched by outcome: the recorded ErrNaN), copies of the context.",
 		Assumptions: []string{"when the receiver is also an operand the context rounds it before operating (documented caveat): only the latch behaviour is judged then", "nothing is promised about factories while the context is latched (they have no receiver): only 'no panic' is demanded", "NewFloat/NewFloat64 values are C15's (faithful, not exact)"},
 		Floors:      []floor{{"ops_while_latched", 10000}, {"nan_latched", 3000}, {"err_returned_ErrNaN", 2000}, {"injected_panics", 5000}, {"op/FMA", 20000}, {"op/Sqrt", 20000}, {"factory/NewFloat64", 8000}, {"op/Err", 25000}},
 		LevelText:   "Model-based runtime monitoring: a sequential reference model of the context's latch runs in lock-step with the real Context over generated operation sequences, with injected foreign panics.",
@@ -186,7 +186,7 @@ var props = map[string]*propCfg{
 		DesignRef:   "DESIGN.md §4 C19",
 	},
 	"C10": {
-		Rule:        "Metamorphic: for each operation instance (Add/Sub/Mul/Quo/FMA/Sqrt/Set/Neg/Abs; operands of 1..200 words so that shifts, Karatsuba scratch, squaring and the in-place quotient interact with reused capacity; occasional +-0/+-Inf operands; precisions 1..1 400) the result on a fresh receiver with distinct variables (value, sign, accuracy, precision, mode, or the panic class) is the reference. It must be reproduced (a) under a random sharing pattern of receiver and operands (5 for binary operations, 15 for FMA, 2 for unary ones; operands sharing a variable are given equal values, operands sharing the receiver fit its precision) with the non-shared operands left bit-identical, and (b) when the receiver is a variable of its own, by two receivers with previous contents drawn from: a longer value, a shorter value, +0, -0, +-Inf, an inexact accuracy, and raw receivers built through the verif export with a larger capacity whose words beyond len are stale (all nines, random, or >= base), an exactly sized buffer, and a zero that still carries the mantissa and an exponent anywhere in int32 of a previous value. Half of the cases run with the scratch pool poisoned. 22% of the cases are setters instead (SetInt64/SetUint64/SetInt/SetRat/SetFloat64/SetFloat/SetString/SetBitsExp/SetInf/GobDecode/UnmarshalText): outcome on a fresh receiver == outcome on two receivers with previous contents. Non-trivial = a non-distinct sharing pattern or a setter case.",
+		Rule:        "Metamorphic: for each operation instance (Add/Sub/Mul/Quo/FMA/Sqrt/Set/Neg/Abs; operands of 1..200 words so that shifts, Karatsuba scratch, squaring and the in-place quotient interact with reused capacity; occasional +-0/+-Inf operands; precisions 1..1 400) the result on a fresh receiver with distinct variables (value, sign, accuracy, precision, mode, or the panic class) is the reference. It must be reproduced (a) under a random sharing pattern of receiver and operands (5 for binary operations, 15 for FMA, 2 for unary ones; operands sharing a variable are given equal values, operands sharing the receiver fit its precision) with the non-shared operands left bit-identical, and (b) when the receiver is a variable of its own, by two receivers with previous contents drawn from: a longer value, a shorter value, +0, -0, +-Inf, an inexact accuracy, and raw receivers built through the verif export with a larger capacity whose words beyond len are stale (all nines, random, or >= base), an exactly sized buffer, and a zero that still carries the mantissa and an exponent anywhere in int32 of a previous value. Half of the cases run with the scratch pool poisoned. 22% of the cases are setters instead (SetInt64/SetUint64/SetInt/SetRat/SetFloat64/SetFloat/SetString/SetBitsExp/SetInf/GobDecode/UnmarshalText): outcome on a fresh receiver == outcome on two receivers with previous contents. Non-trivial = a non-distinct sharing pattern or a setter case. Added in later rounds: divisors 10^k/1/2/5/25, zero-addend FMAs with products beyond the range, twice the share of zeros/infinities, spare capacity of six times the length, an operand whole words above the receiver's mantissa, shared operands with a Below/Above accuracy.",
 		Assumptions: []string{"raw receivers are canonical values (or zeros with leftover fields, a state the public API produces): garbage is only placed beyond len(mant)", "results after an (identical) ErrNaN panic are undefined and not compared"},
 		Floors:      []floor{{"shape/FMA/z=u", 50}, {"shape/Add/z=x", 500}, {"shape/Quo/z=y", 500}, {"shape/Mul/z=x=y", 500}, {"shape/Sqrt/z=x", 1000}, {"dirty_receiver_variants", 40000}, {"setter/", 10000}, {"dirty/raw-large-cap-stale", 4000}, {"dirty/raw-zero-form-stale-mant", 4000}},
 		LevelText:   "Runtime metamorphic monitoring: aliasing shapes and dirty receivers must reproduce the fresh-receiver result; needs no external truth, so it cannot disagree with a correct library.",
